@@ -5,7 +5,7 @@
 #       joins: queueing / reserving: i-th tuple = i-th message of each port, key_matching: equal keys, each message used once, number of tuples);
 #   real nodes fed by 3 external putters, observed at a serial sink, validated by TLC (TraceFlow).
 import os, vlib, flowlib
-SCEN = ['fifo', 'seq0', 'seq1', 'seq2', 'seq3', 'limit1', 'limit2', 'joinq', 'joinr', 'joink']
+SCEN = ['fifo', 'seq0', 'seq1', 'seq2', 'seq3', 'limit1', 'limit2', 'joinq', 'joinr', 'joink', 'prio', 'reserve', 'ow', 'wo', 'split', 'indexer']
 
 
 def run(res, tier, seed):
